@@ -695,6 +695,11 @@ def variants():
         Variant("c-children-overlap", "bad", replace_expr(cl, f"{H}.fit", "labels[i] == 1", "labels[i] >= 0"), ["C15.c"]),
         Variant("c-three-components", "bad", replace_expr(cl, f"{H}.fit", "GaussianMixture(n_components=2, covariance_type=self.covariance_type, n_init=self.n_init)", "GaussianMixture(n_components=3, covariance_type=self.covariance_type, n_init=self.n_init)"), ["C15.c"]),
         Variant("d-mstep-unnormalised", "bad", delete_stmt(cl, "GaussianMixture._m_step", "weights /= np.sum(weights)"), ["C15.d"], quick=True),
+        # a copy of the column sums is the column sums; a copy of something else is not
+        Variant("d-benign-weights-copy-of-column-sums", "benign", replace_stmt(cl, "GaussianMixture._m_step", "weights = np.sum(weighted_resp, axis=0)", "resp_totals = np.sum(weighted_resp, axis=0)\nweights = resp_totals.copy()"), quick=True),
+        Variant("d-benign-weights-nparray-of-column-sums", "benign", replace_stmt(cl, "GaussianMixture._m_step", "weights = np.sum(weighted_resp, axis=0)", "weights = np.array(np.sum(weighted_resp, axis=0), dtype=float)")),
+        Variant("d-weights-copy-of-row-sums", "bad", replace_stmt(cl, "GaussianMixture._m_step", "weights = np.sum(weighted_resp, axis=0)", "resp_totals = np.sum(weighted_resp, axis=1)\nweights = resp_totals.copy()"), ["C15.d"], quick=True),
+        Variant("d-weights-copy-of-unweighted-resp", "bad", replace_stmt(cl, "GaussianMixture._m_step", "weights = np.sum(weighted_resp, axis=0)", "weights = responsibilities[0].copy()"), ["C15.d"]),
         Variant("e-drop-weight-normalisation", "bad", delete_stmt(cl, "GaussianMixture.fit", "sample_weight = sample_weight / np.sum(sample_weight)"), ["C15.e"], quick=True),
         Variant("j-fit-centres-callers-data-in-place", "bad", insert_after(cl, f"{H}.fit", "n_samples, n_features = X.shape", "X -= np.average(X, axis=0)"), ["C15.j"], quick=True),
         Variant("j-benign-fit-centres-a-copy", "benign", insert_after(cl, f"{H}.fit", "n_samples, n_features = X.shape", "Xc = X - np.average(X, axis=0)")),
